@@ -5,6 +5,8 @@ from checks import containers as K, c01, c02, c03
 def all_configs(ctx, selfops):
     b1, b2, b3 = c01.builders(ctx), c02.builders(ctx), c03.builders(ctx)
     cs = c01.configs(ctx, b1, selfops) + c02.configs(ctx, b2, selfops) + c03.configs(ctx, b3, selfops)
+    # the String-keyed tables carry no tracked instances: they belong to C02 only
+    cs = [c for c in cs if "<String>" not in c[1]]
     return cs, (b1, b2, b3)
 
 RULE = ("the C01-C03 history BFS (Map, MultiMap, HashMap, HashSet, PoolMap, List, Array, PoolList) with element and key type "
